@@ -142,7 +142,7 @@ def _loader_job(job):
     for k in ks:
         open(tr, 'wb').write(blob[:k])
         res['trunc'] += 1
-        r, _ = run(sc, tr, ['tload:0'])
+        r, _ = run(sc, tr, ['tload:0', 'tdestroy', 'destroy'])      # (whatever was loaded is released again)
         rc_m, out_m, _ = flexrun.run_driver(['tbl-load', tr, sc[1].prefix + 'tables'])
         model_fail = 'load fail' in out_m
         loaded = 'tload 0' in r['out']
@@ -152,6 +152,9 @@ def _loader_job(job):
             res['problems'].append('a file truncated at byte %d of %d was loaded successfully' % (k, n))
         elif not model_fail:
             res['problems'].append('model loads a file truncated at %d/%d' % (k, n))
+        elif r['stats'].get('badfree', 0) != 0 or r['stats'].get('live', 0) != 0:
+            res['problems'].append('loading a file truncated at byte %d/%d fails as it should, but frees memory that is not live or leaks '
+                                   '(badfree=%s live=%s)' % (k, n, r['stats'].get('badfree'), r['stats'].get('live')))
     # (4) wrong magic
     bad = bytearray(blob); bad[rng.randrange(4)] ^= 1 << rng.randrange(8)
     open(tr, 'wb').write(bytes(bad))
